@@ -153,11 +153,20 @@ class FileShim:
         return p == self.root or p.startswith(self.root + os.sep)
 
     def _hit(self, kind, path):
+        base = os.path.basename(str(path))
         self.counts[kind] = self.counts.get(kind, 0) + 1
+        self.counts[(kind, base)] = self.counts.get((kind, base), 0) + 1
         n = self.counts[kind]
         for f in self.faults:
-            if f["kind"] == kind and f["nth"] == n and (not f.get("match") or f["match"] in str(path)):
-                self.fired.append((kind, os.path.basename(str(path)), n))
+            if f["kind"] != kind:
+                continue
+            if f.get("file"):
+                # n-th event of this kind on this particular file
+                if f["file"] in base and f["nth"] == self.counts[(kind, base)]:
+                    self.fired.append((kind, base, self.counts[(kind, base)]))
+                    return f
+            elif f["nth"] == n and (not f.get("match") or f["match"] in str(path)):
+                self.fired.append((kind, base, n))
                 return f
         return None
 
